@@ -26,7 +26,13 @@ def gen_scenario(rng):
             pick(rng, BOUND_EXPRS[2:4] + ["{stop}-1", "{stop}"])
         lo_i, hi_i = pick(rng, BOUND_EXPRS[:2] + ["1", "{start}+1"]), \
             pick(rng, BOUND_EXPRS[2:4] + ["{stop} + 1", "{start}"])
-        spaces.append({"name": f"its_{'abc'[k]}",
+        redefined = None
+        if rng.random() < 0.4:
+            redefined = [pick(rng, ["1", "{start}"]), pick(rng, ["{stop}",
+                                                                 "2"]),
+                         pick(rng, ["{start}-1", "2"]),
+                         pick(rng, ["{stop}-1", "{start}+1"])]
+        spaces.append({"name": f"its_{'abc'[k]}", "redefined": redefined,
                        "offset": pick(rng, [offset, offset,
                                             "go_offset_any"]),
                        "pt": pick(rng, sorted(set(fields.values()))),
@@ -163,6 +169,13 @@ def config_text(scn):
     if not scn["spaces"]:
         return base
     lines = []
+    for sp in scn["spaces"]:
+        if sp.get("redefined"):
+            # an earlier definition of the same space (other bounds) that
+            # the later line must replace: the configured region is the one
+            # the file gives last
+            lines.append(":".join([sp["offset"], sp["pt"], sp["name"]] +
+                                  sp["redefined"]))
     for sp in scn["spaces"]:
         lines.append(":".join([sp["offset"], sp["pt"], sp["name"]] +
                               sp["bounds"]))
